@@ -256,6 +256,10 @@ def run(run, rng):
     run.assumptions = ['distribution claimed = conditional on a non-Markov structure being drawn (a Markov draw yields no word and the session draws again)',
                        'for un-normalised (edited) rulesets the reference distribution is the normalised one',
                        'at a breakpoint +-1 ulp either neighbouring region is accepted (float vs exact cumulative sums)']
+    if run.shard[0] == 0:
+        for zc in trained.ZERO_KEYSPACE_CASES:
+            run.ev('zero_keyspace_trainings')
+            run.guard({'kind': 'trained', 'train': dict(zc), 'flags': {'skip_brute': False}, 'hseed': 1}, check_case, seconds=300)
     for i in range(N[run.tier]):
         run.guard(gen_case(rng), check_case, seconds=300)
 
